@@ -143,6 +143,20 @@ CHECKS["C17"] = dict(
          "alarm; 2-D worlds; 'introduces only validated motions' observed as validity of the result given a valid input.",
     technique="TLA+ spec + TLC exhaustive case enumeration with exact replay; TLC trace validation of routine reports",
     design="3/C17")
+CHECKS["C18"] = dict(
+    level="model_checking",
+    text="PTC.tla models condition terms as graphs of impl objects (Pred, Always, Never, Iter(n), Or, And, ExactSoln) with "
+         "per-object terminate flags, C++ evaluation order and short-circuiting; TLC checks TerminateSticky, OrAndTruth, "
+         "Constants, IterThreshold, ExactMirrors over all terms of depth <= 1 (and sampled/all depth-2 terms) and every edge of "
+         "the exported graphs is replayed on terms built with the real factory functions, comparing every eval() result and "
+         "predicate-invocation count; PTCPeriodic.tla (evaluator thread + caller + clock) is checked for the lag bound, "
+         "no-predicate-call-on-caller and thread termination (liveness under fairness); CostConvergence.tla transcribes "
+         "processNewSolution with exact rationals and all 24,576 (625k) cost sequences are replayed through the real condition; "
+         "timed/periodic executions are recorded with integer timestamps and validated by TLC using one-sided facts only.",
+    note="Cost convergence follows the code's documented rule (cumulative moving average capped at the window); timed verdicts "
+         "only from facts a slow machine cannot falsify; depth-2 terms sampled in the quick tier.",
+    technique="TLA+ specs + TLC (safety and liveness); state-graph scenario replay; TLC trace validation",
+    design="3/C18")
 CHECKS["C19"] = dict(
     level="model_checking",
     text="Protocol model of the motion counters at the code's atomicity checked by TLC over all interleavings (atomic form "
